@@ -739,7 +739,10 @@ func run(e *core.Env) {
 		O := linkpair.NewStack(e, fmt.Sprintf("out%d", k), outID, ost, false)
 		victimDials := tp.Chance(1, 2)
 		copyChallenge := tp.Chance(3, 4)
-		uaMode := tp.Intn(4)   // 0,1: reflect the victim's own proof; 2: leave what the honest code put; 3: random bytes
+		uaMode := tp.Intn(5)   // 0,1: reflect the victim's own proof; 2: leave what the honest code put; 3: random bytes; 4: no proof at all
+		// what the outsider says about itself is its own choice, too: the version string of its
+		// request (old releases, future ones, development builds, nothing)
+		claimedVersion := []string{"sim", "sim", "v0.0.0", "v0.0.9", "v0.0.1", "v0.0.99", "v0.1.0", "v1.0.0", "v9.9.9", "dev build", "", "V0.0.9", "0.0.9"}[tp.Intn(13)]
 		echoMode := tp.Intn(6) // 0..2: the honest echo of the victim's challenge; 3: none; 4: a proper prefix; 5: one byte more
 		badEcho := false
 		pair := w.cn.NewPair("dishonest")
@@ -821,7 +824,7 @@ func run(e *core.Env) {
 				}
 			}
 			hs.SetChallenge(challenge)
-			body, _ := cbor.Marshal(&forgedRequest{RouterVersion: "sim", Universe: uni[v], Address: outID.PublicAddress, Challenge: challenge, LinkVersion: 1})
+			body, _ := cbor.Marshal(&forgedRequest{RouterVersion: claimedVersion, Universe: uni[v], Address: outID.PublicAddress, Challenge: challenge, LinkVersion: 1})
 			req, err := O.Node.Inst.Builder.NewFrameV1(outID.IP, m.RouterAddress, frame.RouterPing, nil, body, nil)
 			if err != nil {
 				e.Infra("request: %v", err)
@@ -853,6 +856,9 @@ func run(e *core.Env) {
 				}
 			case uaMode == 3:
 				rm["ua"] = tp.Bytes(32)
+			case uaMode == 4:
+				delete(rm, "ua")
+				e.Probe("dishonest_peer_sends_no_universe_proof")
 			}
 			// ... and it may echo only a part of the victim's challenge (none of it, its first
 			// byte, all but the last byte) or append to it.
